@@ -35,6 +35,8 @@ PIECES = [
     "#NOTEDATA:;",
     "#STEPSTYPE:x;",
     "#NOTES:0000;",
+    "#NOTES;",
+    "#ARTIST:e\u0301\u2126\u037e x;",
     "#NOTES:0\\\\00\\\\;",
     "#NOTES2:1111;",
     "#CREDIT:;",
